@@ -110,24 +110,26 @@ Example C18_history_example :
               OSetModTime (-1, 999999999); OAddBlock 18446744073709551615; ORemoveBlock 0%nat;
               ORoundTrip] in
   wf_init (INew 2) /\ Forall wf_op ops /\
-  exists s, spec_run (spec_init (INew 2)) ops = Some s /\
-            s_perm s = 13631999 /\ s_ext s = 1048575 /\ s_time s = (-1, 999999999) /\
-            s_sized s = true /\ to_u64 (s_datalen s + sum_list (s_blocks s)) = 2.
+  match spec_run (spec_init (INew 2)) ops with
+  | Some s => (s_perm s =? 13631999) && (s_ext s =? 1048575) && gtime_eqb (s_time s) (-1, 999999999) &&
+              s_sized s && (to_u64 (s_datalen s + sum_list (s_blocks s)) =? 2)
+  | None => false
+  end = true.
 Proof.
   cbv zeta. split; [cbn [wf_init]; unfold two31; lia|]. split.
   - repeat constructor; cbn [wf_op wf_optdata in_u64 wf_gtime fst snd blen length Z.of_nat];
       unfold two64, two63; try lia.
-  - eexists. split; [reflexivity|]. repeat split.
+  - vm_compute. reflexivity.
 Qed.
 
 (** a node satisfying the hypotheses of the single-step theorems *)
 Example C18_wf_example : wf_data (new_fsnode 1) /\ initialized (new_fsnode 1) = true /\
   wf_gtime (-62135596800, 1) /\ is_zero (-62135596800, 1) = false /\
   encode_data (set_mod_time (-62135596800, 1) (set_mode 2147484141 (new_fsnode 1))) =
-    Some [8; 1; 24; 0; 56; 237; 3; 66; 16; 8; 128; 164; 238; 219; 144; 254; 255; 255; 255; 1; 21; 1; 0; 0; 0].
+    Some [8; 1; 24; 0; 56; 237; 3; 66; 16; 8; 128; 146; 184; 195; 152; 254; 255; 255; 255; 1; 21; 1; 0; 0; 0].
 Proof.
-  split; [|split; [reflexivity|split; [|split; reflexivity]]].
+  split; [|split; [vm_compute; reflexivity|split; [|split; vm_compute; reflexivity]]].
   - unfold new_fsnode. apply wf_update_filesize, wf_with_type; [apply wf_empty|].
-    cbn. unfold two31. lia.
-  - unfold wf_gtime, two63. cbn. lia.
+    cbn [in_opt]. unfold two31. lia.
+  - unfold wf_gtime, two63. cbn [fst snd]. lia.
 Qed.
